@@ -792,3 +792,8 @@ func post_Unsubscribe_EncodeTo(u *Unsubscribe, w io.Writer, res0 int, res1 error
 		(len(ts) < 1 || specTupleAt(b, at+2, ts[0], false)) &&
 		(len(ts) < 2 || specTupleAt(b, at+2+2+len(ts[0].Topic), ts[1], false))
 }
+
+// 3.1 CONNECT as encoded is NOT under contract: stated against the same layout predicates decodeConnect is proved
+// against (seven chained variable-length copies), its postconditions time out on all three solvers (tried twice,
+// the second time with 100-byte field bounds: 4 minutes, 7 of 61 obligations undischarged). The broker never emits
+// CONNECT.
